@@ -32,6 +32,7 @@ type c12Op struct {
 	vals    map[string]any // new-set-get, marshal
 	ts      *gen.TypeSpec
 	resMeta string // unmarshal-*: the payload's resource-level meta ("" if none)
+	reps    int    // parse-url: how many times in a row the text is parsed (0 = once)
 }
 
 func (o c12Op) String() string {
@@ -68,6 +69,11 @@ func drawOp(t *rapid.T, ss *gen.SchemaSpec) c12Op {
 	switch kind {
 	case "parse-url":
 		op.raw = gen.URLRequest(t, ss, gen.URLOpts{Valid: rapid.Bool().Draw(t, "validurl")}).Render(t, "render")
+
+		// (a client retrying: the same text many times in a row)
+		if rapid.IntRange(0, 5).Draw(t, "burst") == 0 {
+			op.reps = 60
+		}
 	case "unmarshal-document", "roundtrip-document", "new-request":
 		pc := gen.ResourcePayload(t, ts, gen.PayloadOpts{Canonical: true, AllFieldsOften: true})
 		op.payload = []byte(`{"data":` + pc.Text + `,"meta":{"k":1}}`)
@@ -105,6 +111,12 @@ func drawOp(t *rapid.T, ss *gen.SchemaSpec) c12Op {
 		}
 	case "new-set-get", "marshal", "marshal-softcol":
 		op.vals = gen.FillResource(t, gen.NewResource(ts), ts, "v")
+
+		// (now and then an ID long enough for a link of well over a hundred
+		// bytes)
+		if rapid.IntRange(0, 5).Draw(t, "longid") == 0 {
+			op.vals["id"] = strings.Repeat("long-id-", rapid.IntRange(16, 40).Draw(t, "longid-n")) + op.vals["id"].(string)
+		}
 	case "has-type", "get-type":
 		if rapid.IntRange(0, 3).Draw(t, "unknown") == 0 {
 			op.typ = "nope"
@@ -127,12 +139,24 @@ func runOp(schema *jsonapi.Schema, ss *gen.SchemaSpec, op c12Op, held *[]c12Held
 
 	switch op.kind {
 	case "parse-url":
-		u, err := jsonapi.NewURLFromRaw(schema, op.raw)
-		if err != nil {
-			return "error"
+		digest := ""
+
+		for i := 0; i <= op.reps; i++ {
+			u, err := jsonapi.NewURLFromRaw(schema, op.raw)
+
+			d := "error"
+			if err == nil {
+				d = "url " + u.String()
+			}
+
+			if i > 0 && d != digest {
+				return fmt.Sprintf("parse %d of the same text gives %s, parse 0 gave %s", i, d, digest)
+			}
+
+			digest = d
 		}
 
-		return "url " + u.String()
+		return digest
 	case "new-request":
 		// The whole request at once: a POST to the type's collection with
 		// the document as its body.
